@@ -30,7 +30,7 @@ async fn main() {
     silence_stdout();
     install_panic_hook();
     let mut sink = Sink::new(&args);
-    let (n_hist, positions): (usize, Vec<usize>) = if args.thorough() { (30, vec![8, 20, 35, 55, 80]) } else { (3, vec![8, 25, 45]) };
+    let (n_hist, positions): (usize, Vec<usize>) = if args.thorough() { (10, vec![8, 20, 35, 55]) } else { (3, vec![8, 25, 45]) };
     let mut notes: std::collections::BTreeMap<String, u64> = Default::default();
     for h in 0..n_hist {
         for (pi, pos) in positions.iter().enumerate() {
